@@ -8,9 +8,12 @@ import (
 	"fmt"
 	"os"
 	"strings"
+	"syscall"
 	"time"
 
+	"github.com/internetarchive/Zeno/internal/pkg/config"
 	"github.com/internetarchive/Zeno/internal/pkg/controler/pause"
+	"github.com/internetarchive/Zeno/internal/pkg/controler/watchers"
 	"github.com/internetarchive/Zeno/internal/pkg/stats"
 	"github.com/internetarchive/Zeno/internal/verif/lib/world"
 	"github.com/internetarchive/Zeno/internal/verif/vrt/hkit"
@@ -26,12 +29,15 @@ type scen struct {
 	Opt    world.Options `json:"options"`
 	Seeds  int           `json:"seeds"`
 	Paused bool          `json:"paused"` // a controller pauses the pipeline and never resumes
+	// DiskFull: the real disk watchdog runs, the disk is full from the start and stays full; the
+	// stop request (controler.stopPipeline's order: watchdog first) comes after the watchdog paused
+	DiskFull bool `json:"disk_full,omitempty"`
 	P      int           `json:"p"`
 }
 
 func (s *scen) name() string {
 	o := s.Opt
-	return fmt.Sprintf("seeds=%d w%d a%d limiter=%v proxy=%v async=%v seencheck=%s paused=%v", s.Seeds, o.Workers, o.MaxConcurrentAssets, o.RateLimit, o.Proxy, o.AsyncWARC, seenName(o), s.Paused)
+	return fmt.Sprintf("seeds=%d w%d a%d limiter=%v proxy=%v async=%v seencheck=%s paused=%v%s", s.Seeds, o.Workers, o.MaxConcurrentAssets, o.RateLimit, o.Proxy, o.AsyncWARC, seenName(o), s.Paused, map[bool]string{true: " disk-full", false: ""}[s.DiskFull])
 }
 
 func seenName(o world.Options) string {
@@ -71,6 +77,14 @@ func scenario(s *scen) *vsched.Scenario {
 		w = world.New(opt, d.Build())
 		o = &obs{}
 		x.Data = o
+		if s.DiskFull {
+			watchers.VerifC14Reset()
+			config.Get().MinSpaceRequired = 1 // GiB
+			vsched.StatfsAnswer = func(path string, st *syscall.Statfs_t) error {
+				st.Bsize, st.Blocks, st.Bavail = 4096, 1<<30, 10
+				return nil
+			}
+		}
 	}
 	sc.Body = func() {
 		w.Start()
@@ -86,8 +100,18 @@ func scenario(s *scen) *vsched.Scenario {
 				}
 			}
 		}()
+		if s.DiskFull {
+			os.MkdirAll(w.JobDir(), 0o755)
+			go watchers.WatchDiskSpace(w.JobDir(), 5*time.Second)
+		}
 		go func() { // stop request: by default it comes after the drain, every deviation moves it earlier
+			if s.DiskFull {
+				time.Sleep(7 * time.Second) // the watchdog's first tick (5 s) has paused the pipeline by then
+			}
 			vsched.Point("h:stop requested", nil)
+			if s.DiskFull {
+				watchers.StopDiskWatcher()
+			}
 			w.Stop()
 			o.mu.Lock()
 			o.stopReturned = true
@@ -167,6 +191,8 @@ func scenarios(tier string) []scen {
 			}
 		}
 	}
+	// paused by the real disk watchdog on a disk that stays full
+	out = append(out, scen{Opt: world.Options{Workers: 1, MaxConcurrentAssets: 1}, Seeds: 1, DiskFull: true, P: P})
 	// the other configuration dimensions on the one-worker, one-seed instance
 	for _, o := range []world.Options{
 		{Workers: 1, MaxConcurrentAssets: 1, Proxy: true},
